@@ -23,7 +23,9 @@ RULE = ("TOY programs of C06 x two generated call schedules over {step, first_cy
         "boundary the full state snapshot, get_memory_table_entries() (cycle markers), get_register_representations() and "
         "get_toy_svg_update_values() must equal those of a twin driven only by step(); an illegal call must raise "
         "StepSequenceError and leave the snapshot unchanged; after done every call must be a silent no-op. non-trivial = "
-        "history with >=1 illegal call mid-program and >=1 store into the program area; distinct = hash(case)")
+        "history with >=1 illegal call mid-program and >=1 store into the program area; distinct = hash(case) "
+        "Small scope, exhaustively: ALL call sequences up to the stated length over the five stepping entry points (run() included) "
+        "on seven tiny programs; plus instruction-less programs and self-branching loops under fixed schedules.")
 ASSUMPTIONS = ["the step()-only twin is the oracle for equivalence (its absolute correctness is C06)"]
 
 
@@ -154,7 +156,10 @@ def check(case, stats):
         tags.add("self-modifying")
     if "brz-taken" in flags:
         tags.add("brz-taken")
-    stats.count(case, nt, tags, sample_tag="history")
+    if case.get("kind") == "exh":
+        tags.add("exhaustive-schedules")
+        nt = illegal_mid >= 1
+    stats.count(case, nt, tags, sample_tag="exh" if case.get("kind") == "exh" else "history")
 
 
 CALLS = ["step", "first", "second", "single"]
@@ -192,8 +197,10 @@ def corpus():
 
 
 def shards(tier, seed):
-    n, k = (150, 4) if tier == "quick" else (900, 16)
-    return [{"n": n, "seed": seed * 1000 + i} for i in range(k)] + [{"what": "empty"}, {"what": "loops"}]
+    n, k = (150, 4) if tier == "quick" else (1500, 16)
+    length, parts = (4, 4) if tier == "quick" else (7, 32)
+    return ([{"n": n, "seed": seed * 1000 + i} for i in range(k)] + [{"what": "empty"}, {"what": "loops"}]
+            + [{"what": "exh", "length": length, "part": i, "parts": parts} for i in range(parts)])
 
 
 def empty_cases():
@@ -213,7 +220,39 @@ def loop_sched_cases():
                                              ["first", "second", "first", "second", "step", "step"]])
 
 
+TINY_PROGRAMS = [
+    {"first": ["INC", None], "len": 1, "accu": 0xFFFF, "words": {}},
+    {"first": ["LDA", 3], "len": 3, "accu": 0, "words": {"1": 0x0002, "2": 0xC000, "3": 0x9000}},          # writes INC over the NOP at 2, then executes it
+    {"first": ["BRZ", 0], "len": 2, "accu": 0, "words": {"1": 0xC000}},                                      # never stops (run() is not tried)
+    {"first": ["ZRO", None], "len": 4, "accu": 7, "words": {"1": 0x2003, "2": 0x9000, "3": 0xA000}},         # taken branch over an instruction
+    {"first": ["DEC", None], "len": 2, "accu": 0, "words": {"1": 0xF123}},                                   # opcode 15 = NOP
+    {"first": ["STO", 0], "len": 2, "accu": 0xC000, "words": {"1": 0x3000}},                                 # overwrites itself, then ADD 0
+    {"first": ["NOP", None], "len": 3, "accu": 1, "words": {}, "via_text": True},
+]
+ALL_CALLS = ["step", "first", "second", "single", "run"]
+
+
+def exhaustive_sched_cases(length, part, parts):
+    """ALL call sequences of exactly `length` calls over the five stepping entry points (every shorter sequence is a prefix
+    and judged on the way) on each tiny program; one case = the 25 sequences sharing all but the last two calls."""
+    import itertools
+    k = 0
+    for pi, prog in enumerate(TINY_PROGRAMS):
+        for prefix in itertools.product(ALL_CALLS, repeat=length - 2):
+            k += 1
+            if k % parts != part:
+                continue
+            yield dict(prog, via_text=prog.get("via_text", False), kind="exh", prog=pi,
+                       sched=[list(prefix) + [a, b] for a in ALL_CALLS for b in ALL_CALLS])
+
+
 def run_shard(item, stats):
+    if item.get("what") == "exh":
+        core.run_cases(exhaustive_sched_cases(item["length"], item["part"], item["parts"]), check, stats,
+                       core.known_matcher(ID, globals().get("known_match")), distinct=True)
+        stats.exhaustive_parts.append(f"all call sequences of length <= {item['length']} over step/first_cycle_step/second_cycle_step/single_step/run "
+                                      f"on {len(TINY_PROGRAMS)} tiny programs (self-modifying, taken branch, endless loop, opcode 15, one-instruction)")
+        return
     if item.get("what") == "loops":
         return core.run_cases(loop_sched_cases(), check, stats, core.known_matcher(ID, globals().get("known_match")))
     if item.get("what") == "empty":
